@@ -640,6 +640,7 @@ def correspondence(ctx):
     _brute_force(ctx, out, rng)
     _classic_tie(ctx, out, rng)
     _gap_correspondence(ctx, out, rng)
+    repaired_p2m_checks(ctx, out, rng, ctx.budget(300, 4000))
     return out
 
 
@@ -943,6 +944,76 @@ def gen_p2m_case(rng, plausible):
     ref = _rand_seq(rng, DNA, rng.randint(1, 8))
     pairs = [gen_pairwise_rows(rng, ref, DNA, plausible) for _ in range(rng.randint(2, 4))]
     return ref, pairs
+
+
+def _repaired_injection_fn(ctx):
+    """the proposed repair fixes/C18-p2m-gap-injection.patch applied to a scratch copy of app/align.py; returns the
+    patched `_gaps_for_injection` as a function living in cogent3.app.align's namespace (None if the patch does not
+    apply, e.g. because the tree already contains it)"""
+    if hasattr(ctx, "_c18_repaired_fn"):
+        return ctx._c18_repaired_fn
+    import ast
+    import shutil
+    import subprocess
+
+    from cogent3.app import align as A
+
+    from .common import SRC, VERIF
+
+    fn = None
+    try:
+        d = ctx.scratch / "repair"
+        (d / "src" / "cogent3" / "app").mkdir(parents=True, exist_ok=True)
+        shutil.copy(SRC / "app" / "align.py", d / "src" / "cogent3" / "app" / "align.py")
+        pr = subprocess.run(["patch", "-p1", "-s", "-i", str(VERIF / "fixes" / "C18-p2m-gap-injection.patch")], cwd=d, capture_output=True, text=True)
+        if pr.returncode == 0:
+            src = (d / "src" / "cogent3" / "app" / "align.py").read_text()
+            node = next(n for n in ast.parse(src).body if isinstance(n, ast.FunctionDef) and n.name == "_gaps_for_injection")
+            ns = dict(A.__dict__)
+            exec(compile(ast.Module(body=[node], type_ignores=[]), "repaired_align.py", "exec"), ns)
+            fn = ns["_gaps_for_injection"]
+        else:
+            ctx.notes.append("proposed repair C18-p2m-gap-injection.patch does not apply to this tree (already applied?): repaired-variant tie skipped")
+    except Exception as ex:  # noqa: BLE001
+        ctx.notes.append(f"repaired-variant tie skipped: {type(ex).__name__}: {ex}")
+    ctx._c18_repaired_fn = fn
+    return fn
+
+
+def repaired_p2m_checks(ctx, out, rng, n):
+    """the PROPOSED REPAIR (not the code under test): pairwise_to_multiple with the patched `_gaps_for_injection` swapped in
+    must (a) agree with the Lean model's repaired variant (`fixed = true`, the one `merge_keeps_pairwise_repaired` is about)
+    and (b) keep every pairwise alignment.  Failures here are about the repair/model, never violations of the code."""
+    from cogent3.app import align as A
+
+    fn = _repaired_injection_fn(ctx)
+    if fn is None or getattr(ctx, "driver", None) is None:
+        return
+    cases = [gen_p2m_case(rng, rng.random() < 0.6) for _ in range(n)]
+    reqs = [("p2m", dict(_p2m_model_req(ctx, ref, pairs)[1], fixed=True)) for ref, pairs in cases]
+    model = ctx.driver.batch(reqs)
+    orig = A._gaps_for_injection
+    A._gaps_for_injection = fn
+    try:
+        for (ref, pairs), m in zip(cases, model):
+            tmp = new_outcome()
+            got = check_p2m(tmp, ref, pairs, True, source="repaired")
+            out["evaluations"] += 1
+            if tmp["failures"]:
+                f = tmp["failures"][0]
+                add_failure(out, "corr", "PROPOSED REPAIR does not satisfy the property: " + f["what"], f["input"], f["expected"], f["got"], confirmed=False)
+                continue
+            if "err" in m or "error" in m:
+                add_failure(out, "corr", "repaired p2m model raised", dict(ref=ref, pairs=pairs), got, m, confirmed=False)
+                continue
+            mrows = [_row_from_gaps(ref, m["ref"])] + [_row_from_gaps(p[1].replace("-", ""), g) for p, g in zip(pairs, m["others"])]
+            rrows = [got["ref"]] + [got[f"s{k}"] for k in range(len(pairs))]
+            if mrows != rrows or not m["keeps"]:
+                add_failure(out, "corr", "repaired p2m model (fixed=true) differs from the patched pairwise_to_multiple", dict(ref=ref, pairs=pairs), mrows, rrows, confirmed=False)
+            else:
+                bump(out, "repaired_variant_tie", len(pairs))
+    finally:
+        A._gaps_for_injection = orig
 
 
 def p2m_checks(ctx, out, rng, n):
